@@ -64,7 +64,8 @@ def graphs(draw, max_edges=8, features=None):
                 if e['deps'] != 'msvc' and len(outs) + len(iouts) > 1 and draw(st.integers(0, 1)) == 1:
                     e['df_targets'] = True      # the depfile names every output of the statement as a target, spelled like the reads
                 if e['deps'] != 'msvc' and f.get('depfile_dirs', True) and draw(st.integers(0, 3)) == 3:
-                    e['dfdir'] = "dep%d/" % (ei % 2)      # depfile in a directory that holds no output
+                    # depfile in a directory that holds no output: a tree of its own, or a sub-directory of the output's
+                    e['dfdir'] = "dep%d/" % (ei % 2) if draw(st.booleans()) else 'nested'
                 # a generated hidden read normally has an order-only manifest path to its producer (the
                 # documented practice); sometimes it has none at all (the D2 / missingdeps shape)
                 for h in e['hidden']:
